@@ -318,17 +318,27 @@ def op_instances(thorough):
     return out
 
 
-def hardness(oi, cfg):
-    """(solvers, timeout, include_in_quick) for the obligations of this instantiation;
-    None = beyond every SAT back end here (listed under not_applicable_parts)"""
-    if oi.op in ('multiply', 'divide'):
-        tot = oi.ts[0].bits + oi.ts[1].bits
+def hardness(oi, cfg, layer='L0'):
+    """(solvers, timeout, include_in_quick) for the obligations of this instantiation at this layer;
+    None = beyond the SAT back ends within the tier budgets (listed under not_applicable_parts).  Measured on this machine:
+    portable multiply predicate vs the exact product: 16x16 bits minutes (cadical/kissat), int x int 1000-1700 s (kissat), 64-bit no answer;
+    the caller (L1) and the intrinsic-path multiply need 'no overflow => mul nsw defined' on top: no answer at 16x16 bits in 900 s."""
+    tot = sum(t.bits for t in oi.ts)
+    if oi.op == 'multiply':
         if tot <= 16:
             return ('minisat',), 120, True
+        if layer != 'L0' or cfg == 'gcc':
+            return None
         if tot <= 32:
-            return ('cadical', 'kissat'), 900, False
-        if tot <= 64 and not (oi.op == 'multiply' and cfg == 'clang' and tot > 64):
-            return ('kissat', 'cadical'), 2400, False
+            return ('cadical', 'kissat'), 1500, False
+        if oi.types in (['i32', 'i32'], ['u32', 'u32']):
+            return ('kissat', 'cadical'), 3300, False
+        return None
+    if oi.op == 'divide':
+        if layer == 'L0':
+            return ('minisat',), 120, tot <= 32        # the predicate itself contains no divider
+        if tot <= 16:
+            return ('minisat',), 120, True
         return None
     return ('minisat',), 90, True
 
@@ -341,13 +351,16 @@ def plan(tier):
     skipped = []
     for oi in op_instances(thorough):
         for cfg in ('clang', 'gcc'):
-            h = hardness(oi, cfg)
+            h = hardness(oi, cfg, 'L0')
             if h is None:
-                skipped.append('%s %s (%s): multiplier/divider obligation beyond every SAT back end here' % (oi.op, oi.tag, cfg))
+                skipped.append('%s %s (%s): multiplier/divider obligation beyond the SAT back ends within the tier budget' % (oi.op, oi.tag, cfg))
                 continue
             solvers, timeout, quick = h
             if not thorough and not quick:
                 continue
+            h1 = hardness(oi, cfg, 'L1')
+            if h1 is not None and not thorough and not h1[2]:
+                h1 = None
             builtin = cfg == 'gcc' and oi.op in ('add', 'subtract', 'multiply')
             if cfg == 'gcc' and not builtin and oi.op not in ('minus', 'convert'):
                 # the GCC build selects the same portable code for these operators; proved once under 'clang'
@@ -411,20 +424,86 @@ def plan(tier):
                 if builtin:
                     repl.append((builtin_pattern(oi), builtin_contract(oi)))
                     repl.append((polarity_pattern(oi), polarity_contract(oi)))
-                jobs.append(Job('%s.L1.custom_operator.%s.%s' % (base, tag, nm), kname, custop_pattern(oi, tag), top_contract(oi, tag),
-                                replace=repl, shim=sname, shim_types=oi.types, oracle=top_oracle(oi, tag), prop=PROP,
-                                solvers=solvers, timeout=timeout, layer=1))
+                if h1 is not None:
+                    jobs.append(Job('%s.L1.custom_operator.%s.%s' % (base, tag, nm), kname, custop_pattern(oi, tag), top_contract(oi, tag),
+                                    replace=repl, shim=sname, shim_types=oi.types, oracle=top_oracle(oi, tag), prop=PROP,
+                                    solvers=h1[0], timeout=h1[1], layer=1))
+                elif tag == 'sat':
+                    skipped.append('%s %s (%s) caller layer L1: not claimed (needs multiplier/divider reasoning beyond budget)' % (oi.op, oi.tag, cfg))
             inst.append((cfg, oi.op, nm))
+    # ---- conversion from floating point (float / double sources): whole tagged operator, callees inlined
+    #      exact result = trunc(x); overflow iff trunc(x) is outside the destination range.  In the open bands (max, max+1) and
+    #      (min-1, min) the truncated value still fits but x itself is outside [min, max]: both readings of the statement are accepted there.
+    for (f, d) in ([('f32', 'i32'), ('f32', 'i8'), ('f64', 'i32'), ('f64', 'i64'), ('f32', 'u32'), ('f64', 'u16')] if thorough else [('f32', 'i32'), ('f64', 'i16'), ('f32', 'u8')]):
+        D = T(d)
+        F = 'float' if f == 'f32' else 'double'
+        mant = 24 if f == 'f32' else 53
+        suf = 'f' if f == 'f32' else ''
+        hi_c = float(2 ** D.digits if not D.signed else 2 ** (D.bits - 1)).hex() + suf          # max + 1, exactly representable
+        mx_c = float(D.max).hex() + suf if D.max < 2 ** mant else None
+        if D.signed:
+            lo_excl = (float(D.min - 1).hex() + suf) if (D.bits - 1) < mant else None         # min - 1 when representable
+            lo_c = float(D.min).hex() + suf
+        else:
+            lo_excl, lo_c = '-0x1p+0' + suf, '0x0p+0' + suf
+        for tag in ('sat', 'trap', 'throw'):
+            for cfg in ('clang',):
+                x = '(*a1)'
+                xin = 'vp_in1'
+                hi = lambda e: '(%s >= %s)' % (e, hi_c)
+                lo = lambda e: ('(%s <= %s)' % (e, lo_excl)) if lo_excl else ('(%s < %s)' % (e, lo_c))
+                above = lambda e: ('(%s > %s)' % (e, mx_c)) if mx_c else hi(e)
+                below = lambda e: '(%s < %s)' % (e, lo_c)
+                tr = '((%s)(%s)%s)' % (D.ctype, D.sctype, x)
+                req = ['%s == %s' % (x, x), '%s < %s && %s > -%s' % (x, '__builtin_inf%s()' % suf, x, '__builtin_inf%s()' % suf)]
+                req = ['%s == %s' % (x, x), '%s <= %s && %s >= -%s' % (x, '0x1.fffffep+127f' if f == 'f32' else '0x1.fffffffffffffp+1023', x, '0x1.fffffep+127f' if f == 'f32' else '0x1.fffffffffffffp+1023')]
+                if tag == 'sat':
+                    ens = ['%s ==> (%s)$RET == %s' % (hi(x), D.ctype, C_int(D.max, D)), '%s ==> (%s)$RET == %s' % (lo(x), D.ctype, C_int(D.min, D)),
+                           '(!%s && !%s) ==> ((%s)$RET == %s || (%s && (%s)$RET == %s) || (%s && (%s)$RET == %s))'
+                           % (hi(x), lo(x), D.ctype, tr, above(x), D.ctype, C_int(D.max, D), below(x), D.ctype, C_int(D.min, D))]
+                    defs = {}
+                else:
+                    ens = ['!%s && !%s' % (hi(x), lo(x)), '(%s)$RET == %s' % (D.ctype, tr)]
+                    k_ = 'TRAP' if tag == 'trap' else 'THROW'
+                    defs = {'VP_%s_POS_OK' % k_: above(xin), 'VP_%s_NEG_OK' % k_: below(xin)}
+                sname = 'vp_fconv_%s_%s_%s' % (tag, f, d)
+                src[cfg].append(shim(d, sname, [(f, 'a')], 'return cnl::convert<%s, %s>{}(a);' % (TAGS[tag], cxx(d))))
+
+                def forc(D, tag):
+                    import math
+                    def o(xv):
+                        if xv != xv or xv in (float('inf'), float('-inf')):
+                            return None
+                        t = math.trunc(xv)
+                        sig = 'trap' if tag == 'trap' else 'throw'
+                        if t > D.max:
+                            return ('value', D.max) if tag == 'sat' else (sig, 'positive overflow')
+                        if t < D.min:
+                            return ('value', D.min) if tag == 'sat' else (sig, 'negative overflow')
+                        if xv > D.max or xv < D.min:
+                            return ('defined',)
+                        return ('value', t)
+                    return o
+                jobs.append(Job('%s.%s.convert_float.L1.%s.%s_%s' % (PROP, cfg, tag, f, d), 'C06_' + cfg,
+                                r'^cnl::custom_operator<cnl::_impl::convert_op, cnl::op_value<%s, cnl::_impl::native_tag>, cnl::op_value<%s, %s> ?>::operator\(\)\(' % (F, dem(d), re.escape(TAGS[tag])),
+                                Contract(requires=req, ensures=ens, assigns=[], note='float -> integer under tag %s: overflow iff trunc(x) leaves the destination range' % tag),
+                                defines=defs, shim=sname, shim_types=[f], oracle=forc(D, tag), prop=PROP, timeout=300, layer=1))
     kernels = [Kernel('C06_clang', ''.join(src['clang']), [], 'portable (Clang) detection path'),
                Kernel('C06_gcc', ''.join(src['gcc']), ['-U__clang__'], 'intrinsic (GCC) detection path: clang front end with __clang__ undefined')]
     meta = {
         'instantiations': len(inst),
         'explanation': 'per-function contracts taken from the property statement, discharged by CBMC on C extracted from clang -O0 IR; '
                        'callers proved against callee contracts (goto-instrument --dfcc --replace-call-with-contract)',
-        'not_applicable_parts': skipped + ['floating-point sources of convert: see C06 float jobs / DESIGN.md'],
+        'not_applicable_parts': skipped + ['long double sources of convert (x87)'],
         'assumptions': ['-U__clang__ under clang selects the same preprocessor branches a GCC build selects'],
     }
     return {'kernels': kernels, 'jobs': jobs, 'meta': meta}
+
+
+def C_int(v, D):
+    if D.bits == 64:
+        return ('(uint64_t)(%dLL%s)' % (v if v > -(2 ** 63) else v + 1, '' if v > -(2 ** 63) else ' - 1')) if D.signed else '%dULL' % v
+    return '((%s)%d%s)' % (D.ctype, v, 'U' if not D.signed else '')
 
 
 def _ret_short(oi):
